@@ -134,7 +134,11 @@ const MOUNT: &str = "/mnt/reg";
 impl World {
     fn new() -> Self {
         let reg = Arc::new(Registry::new());
-        let router = Router::new().with_registry(MOUNT, reg.clone());
+        // decoy mounts whose prefixes merely share leading characters with the real one, registered before and after it:
+        // a mount owns the paths below its prefix at a "/" boundary, nothing else
+        let decoy = Arc::new(Registry::new());
+        decoy.register_value("/x", json!("decoy")).unwrap();
+        let router = Router::new().with_registry("/mnt/re", decoy.clone()).with_registry(MOUNT, reg.clone()).with_registry("/mnt/reg2", decoy);
         World { reg, router }
     }
 
